@@ -200,7 +200,8 @@ def odd_principals(rnd):
     return out
 
 
-def build_row_cert(cls, kalg, sig_alg, rnd, key_id=None, serial=None):
+def build_row_cert(cls, kalg, sig_alg, rnd, key_id=None, serial=None,
+                   principals=None):
     """cls = (ctype, princ(tuple), crit(tuple), ext, casig).
     -> (blob, cert algorithm, how the CA signature was spoilt, fields put in)
     """
@@ -221,7 +222,9 @@ def build_row_cert(cls, kalg, sig_alg, rnd, key_id=None, serial=None):
         if how == 'otherkey':
             signer = p['k2']
     names = sorted(n for n in princ if n != 'odd')
-    if 'odd' in princ:
+    if principals is not None:
+        names = list(principals)        # replay of a recorded case
+    elif 'odd' in princ:
         for o in odd_principals(rnd):
             names.insert(rnd.randrange(len(names) + 1), o)
     key_id = rnd.choice(KEY_IDS) if key_id is None else key_id
